@@ -14,6 +14,7 @@
   Only property theorems here; lemmas are in Lemmas/Farm*.lean.
 -/
 import MxModel.Lemmas.FarmAcct
+import MxModel.Lemmas.FarmSafe
 
 namespace Mx.C05
 open Mx.Farm
@@ -66,9 +67,31 @@ theorem same_token_balance (same : Bool) (dsc pb : Nat) (produce : Bool) (users 
   intro s
   have h := run_acct ops (init_acct .mint same dsc pb produce users e0)
   have hk : s.kind = .mint := run_kind ops _
-  have := h.bal hk
-  have := h.prin
+  have h1 : s.balReward = s.reserve := h.bal hk
+  have h2 : s.balFarming = s.supply := h.prin
   omega
+
+/-- **no_underflow (supply).**  In every reachable state, whoever holds `a > 0` of a position can
+    take it out: `a ≤ farm_token_supply`, so the checked subtraction of `exitFarm` cannot fail. -/
+theorem no_underflow_supply (kind : Kind) (same : Bool) (dsc pb : Nat) (produce : Bool) (users : List Nat)
+    (e0 : Nat) (hnd : users.Nodup) (ops : List Op) (u n a : Nat) :
+    let s := run (init kind same dsc pb produce users e0) ops
+    a ≠ 0 → a ≤ s.hold u n → a ≤ s.supply ∧ a ≤ s.balFarming := by
+  intro s ha h
+  have hP := reachable_posInv kind same dsc pb produce users e0 hnd ops
+  have hA := run_acct ops (init_acct kind same dsc pb produce users e0)
+  have h1 : a ≤ s.supply := held_le_supply hP ha h
+  have h2 : s.balFarming = s.supply := hA.prin
+  exact ⟨h1, by omega⟩
+
+/-- **no_underflow (owner total).**  … and out of the recorded owner's tracked total: the saturating
+    `decrease_user_farm_position` never actually saturates, whoever the acting account is. -/
+theorem no_underflow_owner_total (kind : Kind) (same : Bool) (dsc pb : Nat) (produce : Bool)
+    (users : List Nat) (e0 : Nat) (hnd : users.Nodup) (ops : List Op) (u n a : Nat) (att : Attr) :
+    let s := run (init kind same dsc pb produce users e0) ops
+    a ≠ 0 → a ≤ s.hold u n → s.attrs n = some att → a ≤ s.userTotal att.owner := by
+  intro s ha h hat
+  exact held_le_ownerTotal (reachable_posInv kind same dsc pb produce users e0 hnd ops) ha h hat
 
 /-- a failed transaction leaves the state untouched (atomicity as modelled) -/
 theorem failed_tx_no_effect (s : St) (op : Op) (h : step s op = none) : run s [op] = s := by
